@@ -85,6 +85,10 @@ End Glue.
 Arguments fwd {T X Y} l x.
 Arguments inv {T X Y} l y.
 
+(* ---- array level: a batch may be evaluated in chunks (ImportanceFlowModel.log_prob_ith / log_prob_all, FlowModel.log_prob
+   on arrays of any size): each chunk through the pointwise density, results written back in order ---------------------- *)
+Definition batched_eval {X T : Type} (f : X -> T) (chunks : list (list X)) : list T := concat (map (map f) chunks).
+
 (* ---- the oracle hypothesis, over the reals ---------------------------------------------------------------------------- *)
 From Coq Require Import Reals.
 Local Open Scope R_scope.
